@@ -1,11 +1,11 @@
-SPECIFICATION FairSpec
+SPECIFICATION Spec
 CONSTANTS
   Conn = {c1, c2}
   Req = {r1, r2}
   Ids = {i1, i2}
   MaxSteps = 1
   SendKinds = {"full", "head", "body"}
-  Mode = "cancel"
+  Mode = "detached"
 INVARIANT DetachedNeverCancelled
 INVARIANT CancelOnlyWhenGone
 INVARIANT NoHandlerBeforeReject
@@ -17,6 +17,4 @@ INVARIANT WgCounts
 PROPERTY EndsOnce
 PROPERTY NoProgressAfterCancel
 PROPERTY NoAcceptAfterExit
-PROPERTY CancelOnDisconnect
-PROPERTY ShutdownCompletes
 CHECK_DEADLOCK FALSE
